@@ -1656,10 +1656,17 @@ class C17(Prop):
     def run(self, ctx):
         rng = ctx.rng
         qs = []; meta = []
-        n = ctx.scale(200, 5000)
+        def ded_base(tight):
+            # dense task sets (small periods, jitter, deadlines around the periods, busy windows spanning many releases) for 40 %
+            if rng.random() < 0.4:
+                q = families.q_dense(rng)[0]
+                if rng.random() < tight: q[-1] = rng.randint(1, 40)
+                return q
+            return gen_ded_queries(rng, 1, ["periodic", "sporadic", "curve", "extrap", "propagated", "jitter"], tight)[0]
+        n = ctx.scale(320, 5000)
         while len(meta) < n:
             r = rng.random()
-            if r < 0.6: base = gen_ded_queries(rng, 1, ["periodic", "sporadic", "curve", "extrap", "propagated", "jitter"])[0]
+            if r < 0.7: base = ded_base(0.3)
             elif r < 0.8: base = families.q_ecrts(rng, None, True)[0]
             else: base = families.q_rtss(rng, None, True)[0]
             hard, how = harden_query(base, rng)
@@ -1672,7 +1679,7 @@ class C17(Prop):
         n2 = ctx.scale(2500, 30000)
         while len(qs2) < 2 * n2:
             r = rng.random()
-            if r < 0.62: base = gen_ded_queries(rng, 1, ["periodic", "sporadic", "curve", "extrap", "propagated", "jitter"], 0.3)[0]
+            if r < 0.62: base = ded_base(0.3)
             elif r < 0.77: base = families.q_ecrts(rng, None, True)[0]
             else:
                 base = families.q_rtss(rng, None, True)[0]
